@@ -36,6 +36,10 @@ type Obligation struct {
 
 	replayConfirmed bool
 	replayNote      string
+	replaySrc       string
+	replayOut       string
+	outVals         []*Value
+	outRow          []Term
 }
 
 type ModelVar struct {
